@@ -170,7 +170,20 @@ func runUDP(st Stim) Trace {
 		switch e.E {
 		case "recv":
 			mid++
-			_ = u.Inject(memnet.Build(message.NonConfirmable, int(codes.GET), mid, []byte{1, byte(mid)}, message.Options{{ID: message.URIPath, Value: []byte("x")}}, nil))
+			switch e.G { // every kind of message is "a message received from the peer"
+			case 1:
+				_ = u.Inject(memnet.Build(message.Confirmable, int(codes.GET), mid, []byte{1, byte(mid)}, message.Options{{ID: message.URIPath, Value: []byte("x")}}, nil))
+			case 2:
+				_ = u.Inject(memnet.Build(message.Confirmable, int(codes.Empty), mid, nil, nil, nil)) // the peer's ping
+			case 3:
+				_ = u.Inject(memnet.Build(message.Acknowledgement, int(codes.Empty), 0x7000+mid, nil, nil, nil))
+			case 4:
+				_ = u.Inject(memnet.Build(message.Reset, int(codes.Empty), 0x7000+mid, nil, nil, nil))
+			case 5:
+				_ = u.Inject(memnet.Build(message.NonConfirmable, int(codes.Content), mid, []byte{9, byte(mid)}, nil, []byte("r")))
+			default:
+				_ = u.Inject(memnet.Build(message.NonConfirmable, int(codes.GET), mid, []byte{1, byte(mid)}, message.Options{{ID: message.URIPath, Value: []byte("x")}}, nil))
+			}
 		case "pong":
 			scan()
 			if e.G >= 1 && e.G <= len(pingMIDs) {
